@@ -36,7 +36,7 @@ claimed["C03"] = dict(
         "would move up unhashed); a failing return of the core is guarded by a comparison of the claimed position with a bound computed from the leaf count; siblinghood is never "
         "concluded from rightSib(a)==b alone; the verifiers use the positions the candidates were computed at; and on every verification path positions are used in the coordinate "
         "system (tree layout vs the map forest's TotalRows layout) the accompanying height denotes; neither input of the core's parent-hash step can be the default value of its variable, and a cursor over claimed hashes advances only past an entry that was read. These are necessary conditions of soundness, decided for all inputs (five of "
-        "them fired on the pinned tree and were repaired); that the core recomputes the right candidates (arithmetic, hashing) is not decided.",
+        "them fired on the pinned tree and were repaired); the work loop of the core ends towards success only on a test that looks at the work list; that the core recomputes the right candidates (arithmetic, hashing) is not decided.",
    ref="DESIGN.md 5/C03, engine E2",
    technique="static error-propagation and guard (dominating branch edge) analysis on go/ssa, anchors resolved by role; coordinate-layout abstract interpretation of the verification paths (custom analyzer)")
 
@@ -68,7 +68,7 @@ claimed["C07"] = dict(
    text="Thin claim: static rules decide the clause 'every added leaf it asked to remember' at its only source (every added leaf is listed in the update data on "
         "every path) and the wiring of the cached-proof update (each phase fed from its own UpdateData lists, positions paired with their hashes, remove before add "
         "on the returned hashes); the recorded position of an added leaf depends on the call that lifts it over overwritten empty roots; remembered leaves are looked up by their "
-        "full hash, never by a position computed from the leaf count or by a truncated hash; a discarded error of a position function in the update is excluded by a guard or a reviewed lemma covering every failing return of the callee (a failing call would pair the leaf with position 0); a list the update walks like one side of a merge is sorted first. Positions, canonicity and retention over deletions are not decided.",
+        "full hash, never by a position computed from the leaf count or by a truncated hash; a discarded error of a position function in the update is excluded by a guard or a reviewed lemma covering every failing return of the callee (a failing call would pair the leaf with position 0); a list the update walks like one side of a merge is sorted first; a list a helper returns resized is taken from its result. Positions, canonicity and retention over deletions are not decided.",
    ref="DESIGN.md 5/C07, engine E2",
    technique="static must-pass-through and dataflow-wiring rules on go/ssa (custom analyzer)")
 
@@ -86,7 +86,7 @@ claimed["C09"] = dict(
         "no other caller of the storing function than the documented unverified entry), that the pruning primitive never receives a position that could be a root; that a "
         "function switching TotalRows finishes every translation from the old TotalRows first; that Prune clears the keep flag of a leaf it un-indexes on every continuing path; that a "
         "moved node is re-inserted on every path that deletes it; and (layout analysis) that everything stored, fetched, indexed or fed to position arithmetic is in the coordinate "
-        "system of the accompanying forest height; and that the keep flag stored with a node in a loop is computed for that position, never carried over from an earlier one. Truth of stored hashes through moves (arithmetic), minimality and provability of the cache are not decided.",
+        "system of the accompanying forest height; and that the keep flag stored with a node in a loop is computed for that position, never carried over from an earlier one; the from-roots constructor stores every root it is given; a node whose hash was just recomputed never inherits the keep flag of another node. Truth of stored hashes through moves (arithmetic), minimality and provability of the cache are not decided.",
    ref="DESIGN.md 5/C09, engine E2",
    technique="static dominance/guard rules, who-may-call, must-pass-through pairing rules and coordinate-layout abstract interpretation on go/ssa (custom analyzer)")
 
@@ -94,7 +94,7 @@ claimed["C15"] = dict(
    text="Static guard and dataflow rules on the schedule generator decide, for all histories and limits, the memory bound clause: the working cache grows only "
         "under a strict len(cache) < maxMemory test on the value appended to or right after a one-element removal, and every scheduled position is read from that "
         "cache; the ordering clause: each row is sorted after its last append; and three conditions of completeness: recorded deletions are sorted ascending before de-twinning, "
-        "every recorded root state has the block's deletions applied, the TTL table is recomputed before it is read, tree/branch detection with a discarded error is applied to a tracked position only behind an exact existence test, generating a schedule never writes through a recorded list or an alias of it, and no allocation is sized by the memory limit. That positions are the right insertion slots and uniqueness are not decided.",
+        "every recorded root state has the block's deletions applied, the TTL table is recomputed before it is read, tree/branch detection with a discarded error is applied to a tracked position only behind an exact existence test, generating a schedule never writes through a recorded list or an alias of it, no allocation is sized by the memory limit, and a list a helper returns resized is taken from its result. That positions are the right insertion slots and uniqueness are not decided.",
    ref="DESIGN.md 5/C15, engine E2",
    technique="static guard analysis on SSA values, value-web dataflow, must-pass-through rules and order-class dataflow (taint to requires-sorted sinks) on go/ssa (custom analyzer)")
 claimed["C01"] = dict(
@@ -110,7 +110,7 @@ claimed["C14"] = dict(
         "hashes given in any parallel order': at every site that combines positions with hashes index by index both operands are in the same order class (caller order, "
         "sorted copy, canonical proof order of the same group); no slice still in a caller-chosen order reaches a function that requires sorted input; proof restriction "
         "succeeds only behind the coverage test and returns hashes and targets in request order; positions are used (and returned) in the coordinate system the accompanying "
-        "forest height denotes; computing missing positions never reorders the targets of the proof the caller holds, decides what is missing by look-ups of the node store on every non-empty request, and the hashes supplied for the missing positions are read through their own cursor. Canonicity/exactness of the combined or restricted proof and of the "
+        "forest height denotes; computing missing positions never reorders the targets of the proof the caller holds, decides what is missing by look-ups of the node store on every non-empty request, the hashes supplied for the missing positions are read through their own cursor, the single-target proof-position helper is never accumulated over a loop of targets, and the stand-alone missing-positions function takes the held set from the sorted copy of the caller's proof targets element for element. Canonicity/exactness of the combined or restricted proof and of the "
         "missing positions (position arithmetic) are not decided.",
    ref="DESIGN.md 5/C14, engine E7",
    technique="static order-class dataflow: flow- and context-sensitive abstract interpretation over go/ssa with in-place-sort tracking; pairing, taint-to-sink and output-contract rules (custom analyzer)")
@@ -130,10 +130,11 @@ claimed["C02"] = dict(
    technique="static order-class dataflow with map-fill idiom recognition and output contracts; guard rule on fetch sites (custom analyzer)")
 
 claimed["C16"] = dict(
-   text="Thin claim. The numerical identities of the 64-bit position arithmetic are NOT decided. Two structural necessary conditions are decided for all inputs: the "
+   text="Thin claim. The numerical identities of the 64-bit position arithmetic are NOT decided. Four structural necessary conditions are decided for all inputs: the "
         "call closure of the exported position functions computes with integers only (no floating-point value, no call into package math other than math/bits - float64 "
         "cannot represent every position or leaf count at heights near 63), and in ProofPositions every step that replaces a working target by its parent also appends "
-        "to the list of computable positions on every path to the next iteration.",
+        "to the list of computable positions on every path to the next iteration; every left shift by a variable amount in that closure is computed in a 64-bit type (forests have up to 63 rows); "
+        "and a leaf count converted to a signed integer is only compared, never an operand of arithmetic.",
    ref="DESIGN.md 5/C16",
    technique="static type/effect lint over the call closure (no float values, no math calls) and a must-pass-through rule on go/ssa (custom analyzer)")
 
@@ -146,7 +147,7 @@ claimed["C06"] = dict(
         "in the closure of the three Undo entries a caller never drops the updated list a helper returns while it goes on using the list it passed in (each undo step sees what the "
         "previous one left); every undone addition leaves the leaf index; a node moved back is re-inserted on every path that deletes it; the undone block's targets are used in "
         "the layout of the forest before the block and hashes are paired with positions of one order class; each forest's Undo runs its undo-one-addition step - which decrements "
-        "the leaf count on every success path - on every iteration of a loop bounded by the block's number of additions; a proof-hash list the undo allocates itself is filled before the hashing core sees it.",
+        "the leaf count on every success path - on every iteration of a loop bounded by the block's number of additions; a proof-hash list the undo allocates itself is filled before the hashing core sees it; a root position the map forest's undo re-creates gets its node back (by the add-undo step or by the closing write-back of the previous roots).",
    ref="DESIGN.md 5/C06, engines E2+E7",
    technique="static dataflow (dropped-result / later-use analysis), must-pass-through and dominance rules on go/ssa, order-class and coordinate-layout abstract interpretation (custom analyzer)")
 
